@@ -45,7 +45,7 @@ PROPS = {
     "C08": {
         "level": "exploration",
         "lanes": LANES_HEAVY,
-        "rule": "case = (parent shape up to NxN, window incl. empty ones, receiver {owned, view, view of view, view_mut, nested view_mut, view of view_mut, TooDeeView::from(view_mut), TooDeeView::new / TooDeeViewMut::new over a slice longer than needed, TooDeeView::from(TooDeeViewMut::new(longer slice))}, iterator {rows, rows_mut}); inside it every call script up to depth 2 over {next, next_back, len, nth(n), nth_back(n)} with n in {0,1,2,rem-1,rem,rem+1,C-1,C,C+1,2C,C*R,usize::MAX,usize::MAX/stride+1,2^63}, depth 3-4 over a reduced alphabet, seeded random scripts of length 4-12, each followed by a terminal {drop,count,last,fold,rfold,collect,rev-collect}; every result compared (items by address and length) with std's vec::IntoIter over the expected rows; yielded &mut rows kept alive, checked disjoint and written through. distinct = (parent, window, receiver, iterator) for which all scripts agreed; iterator states reached are counted separately.",
+        "rule": "case = (parent shape up to NxN, window incl. empty ones, receiver {owned, view, view of view, view_mut, nested view_mut, view of view_mut, TooDeeView::from(view_mut), TooDeeView::new / TooDeeViewMut::new over a slice longer than needed, TooDeeView::from(TooDeeViewMut::new(longer slice))}, iterator {rows, rows_mut}); inside it every call script up to depth 2 over {next, next_back, len, nth(n), nth_back(n)} with n in {0,1,2,rem-1,rem,rem+1,C-1,C,C+1,2C,C*R,usize::MAX,usize::MAX/stride+1,2^63}, depth 3-4 over a reduced alphabet, seeded random scripts of length 4-12 (plus O(1) length/step checks on giant arrays of zero-sized elements with dimensions near usize::MAX), each followed by a terminal {drop,count,last,fold,rfold,collect,rev-collect}; every result compared (items by address and length) with std's vec::IntoIter over the expected rows; yielded &mut rows kept alive, checked disjoint and written through. distinct = (parent, window, receiver, iterator) for which all scripts agreed; iterator states reached are counted separately.",
         "must_observe": ["iter_calls", "iter_states"],
         "text": "Runtime exploration over call sequences: rows()/rows_mut() of every receiver kind are driven by enumerated and random method scripts side by side with std's vec::IntoIter (the ideal double-ended exact-size sequence); results are compared by address, &mut rows are checked pairwise disjoint and written through to the parent.",
         "design_ref": "DESIGN.md 5 (C08-C10)", "technique": "runtime monitoring: differential against an ideal sequence over enumerated call scripts, address-identity oracle, sanitizer lanes",
@@ -144,7 +144,7 @@ PROPS.update({
     "C11": {
         "level": "fault_enumeration",
         "lanes": LANES_STD,
-        "rule": "crash-point enumeration: for every operation that runs caller code (insert_row/push_row/insert_col/push_col with an instrumented iterator; new; init; clone; fill, clone_from_slice, clone_from_toodee on owned arrays and on views; From<view>; remove_row/remove_col drains dropped after (front,back) items; clear; drop; all 11 sort variants on owned arrays and views) x every shape up to NxN x every index: a fault-free run counts the calls of each kind {into_iter, len, next, next_back, iterator drop, Clone, Default, element Drop, comparator, key function}, then for every kind and every k < count the k-th call panics (Drop faults are postponed while already unwinding). Lying iterators (len +1, +3, -1, 0, usize::MAX, usize::MAX/2+1, flickering) on empty and non-empty arrays, alone and combined with next() faults. After catch_unwind: shape invariant, every reachable element live+distinct+not caller-held, no double drop; then the survivor is used further (read all, push_row, insert_col, remove_col, two sorts, clone, remove_row, swap_dimensions, drop) and re-checked. Leaks are allowed. distinct = (operation, shape, index/arguments, callback kind, k) crash points at which a panic was actually injected and the survivor passed.",
+        "rule": "crash-point enumeration: for every operation that runs caller code (insert_row/push_row/insert_col/push_col with an instrumented iterator; new; init; clone; fill, clone_from_slice, clone_from_toodee on owned arrays and on views; From<view>; remove_row/remove_col drains dropped after (front,back) items; clear; drop; all 11 sort variants on owned arrays and views) x every shape up to NxN x every index: a fault-free run counts the calls of each kind {into_iter, len, next, next_back, iterator drop, Clone, Default, element Drop, comparator, key function}, then for every kind and every k < count the k-th call panics (Drop faults are postponed while already unwinding). Lying iterators (len +1, +3, -1, 0, usize::MAX, usize::MAX/2+1, flickering; and claims that agree with the line length while the iterator holds fewer or more items) on empty and non-empty arrays, alone and combined with next() faults. After catch_unwind: shape invariant, every reachable element live+distinct+not caller-held, no double drop; then the survivor is used further (read all, push_row, insert_col, remove_col, two sorts, clone, remove_row, swap_dimensions, drop) and re-checked. Leaks are allowed. distinct = (operation, shape, index/arguments, callback kind, k) crash points at which a panic was actually injected and the survivor passed.",
         "must_observe": ["panics_injected", "survivor_followups", "lying_iterators"],
         "text": "Fault enumeration over crash points: every k-th call into caller-supplied code is made to panic in every operation that runs caller code, plus iterators that lie about their length; the array that survives catch_unwind is validated (shape invariant + ledger) and then used further and dropped, under ub_checks, release, ASan, Miri and memcheck.",
         "design_ref": "DESIGN.md 5 (C11)", "technique": "runtime monitoring with fault injection: k-th-callback panic enumeration, invariant + ledger check on the survivor, continued use, sanitizer lanes",
